@@ -213,6 +213,8 @@ _unused: HashMismatch
                 it.index@ > 0 ==> expected == (if serial + it.index@ <= u64::MAX { Some((serial + it.index@) as u64) } else { None }),
 //@ fn RepositoryUpdate::delta_update
 //@ spec
+    // the copy handed in is at the serial its state record names
+    requires copy_consistent(archive, state),
     ensures
         // C25: "up to date by deltas" is reported only if the local objects went through a gap-free
         // list of completely applied, hash-checked deltas from the stored serial to the notified
@@ -251,11 +253,15 @@ _unused: HashMismatch
                     notify.content.session_spec() == state.session,
                     forall|i: int| 0 <= i < notify.content.deltas_spec().len() ==>
                         !contradicts(#[trigger] notify.content.deltas_spec()[i], &state),
+                    // C25: the content has reached exactly the serial of the last delta applied so far
+                    delta_path(deltas@, state.serial, notify.content.serial_spec()),
+                    serial_reached(archive.objects(), state.session, (state.serial + it.index@) as u64),
                     // C25: the deltas applied so far, each completely, in list order
                     chain_n(a0, archive.objects(), state.session, deltas@, it.index@ as int),
                     self.collector == old(self).collector, self.path == old(self).path,
                     self.rpki_notify == old(self).rpki_notify,
 //@ loopentry 1
+                    broadcast use axiom_delta_advances_serial;
                     let ghost before = archive.objects();
 //@ loopend 1
                     proof {
@@ -265,6 +271,7 @@ _unused: HashMismatch
                     }
 //@ fn RepositoryUpdate::not_modified
 //@ spec
+    requires current matches Some(c) ==> copy_consistent(c.0, c.1),
     ensures
         // the copy is kept as it is; only its state record is refreshed (same session and serial)
         (current matches Some(c) ==> (res is Ok ==> kept_current(c.0, c.1))),
@@ -272,6 +279,7 @@ _unused: HashMismatch
         final(self).rpki_notify == old(self).rpki_notify,
 //@ fn RepositoryUpdate::update
 //@ spec
+    requires current matches Some(c) ==> copy_consistent(c.0, c.1),
     ensures
         // C25: success is reported only for one of the three ways of being up to date
         res matches Ok(true) ==> update_ok(current, *old(self).path, *old(self).rpki_notify),
@@ -293,6 +301,11 @@ _unused: HashMismatch
 //@ closure 1
 |current: &(RrdpArchive, RepositoryState)| -> (r: Option<DateTime<Utc>>) ensures true
 //@ global
+// the copy `a` holds the content of the session and serial its state record `s` names
+spec fn copy_consistent(a: RrdpArchive, s: RepositoryState) -> bool {
+    serial_reached(a.objects(), s.session, s.serial)
+}
+
 // Not Modified: the existing copy `a` (state record `s`) stays, its record is rewritten with the same identity.
 spec fn kept_current(a: RrdpArchive, s: RepositoryState) -> bool {
     exists|st: RepositoryState| st.session == s.session && st.serial == s.serial
